@@ -249,6 +249,8 @@ def gen_cases(tier, seed):
         if r < 0.5 or c["liesel"]:
             inc = [k for k in (["z"] + (["derived"] if c["liesel"] else [])) if rng.random() < 0.8]
             exc = [k for k in keys if rng.random() < 0.3]
+            if exc and rng.random() < 0.5:
+                inc = inc + [exc[0]]        # a key listed as additionally included AND excluded: exclusion wins
             if len(exc) == len(keys) and not inc:
                 exc = exc[1:]
             if len([k for k in keys + inc if k not in exc]) == 0:
